@@ -180,7 +180,10 @@ Qed.
 (* ---------------- ownership discipline of buffers, per function ---------------- *)
 (* what a function does, in source order, with a pooled buffer it holds (regenerated from the
    source by gen/c08_poolfacts.go): uses (method calls, passing it on, slices obtained by
-   Bytes()), Free, returning it to the caller, and putting the encoder that points to it *)
+   Bytes()), Free, returning it to the caller, and putting the encoder that points to it.
+   The same events describe the other pooled objects (CheckedEntry, pooled encoders, slice encoder,
+   error wrappers, stacks) in the function that holds them from Get to Put: BUse = a field access or
+   handing the object to a core / marshaler / hook, BFree = its Put (putCheckedEntry(ce), x.Free() ...) *)
 Inductive bev := BUse | BFree | BRet | BOwnerPut.
 Record ownfact := { of_fn : string; of_buf : string; of_events : list bev }.
 
